@@ -132,10 +132,18 @@ Walk(c, d, s, w) ==
 W0 == [i |-> 1, k |-> 0, ops |-> << >>, peer |-> << >>, armed |-> FALSE, depth |-> 0, inner |-> "none",
        end |-> "", res |-> FailRes("other"), conn |-> FALSE]
 
+(* What the returned connection delivers when frames were glued to the 101: message by message, then the end. *)
+CanonRx(fs) ==
+  LET M == Messages(fs) IN
+  [j \in 1..(Len(M) + 1) |->
+     IF j <= Len(M) THEN [ok |-> TRUE, type |-> M[j].type, n |-> M[j].len, eq |-> << j >>]
+     ELSE [ok |-> FALSE, type |-> 0, n |-> 0, eq |-> << >>]]
+
 (* The canonical observation of one dial. *)
 Canon(c, d, s) ==
   IF MayRefuse(c, d) THEN
-     [hooks |-> << >>, ops |-> << >>, closed |-> << >>, peer |-> << >>, res |-> FailRes("other"), end |-> "refused", short |-> FALSE]
+     [hooks |-> << >>, ops |-> << >>, closed |-> << >>, peer |-> << >>, res |-> FailRes("other"), end |-> "refused", short |-> FALSE,
+      rx |-> << >>, plook |-> 0]
   ELSE
   LET w == Walk(c, d, s, W0)
       ok == w.end = ""
@@ -143,7 +151,9 @@ Canon(c, d, s) ==
   IN [hooks |-> hk,
       ops |-> IF w.conn /\ ~ok THEN Append(w.ops, MkOp("C", FALSE, "", "", w.armed, FALSE)) ELSE w.ops,
       closed |-> IF ~w.conn THEN << >> ELSE IF ok THEN << 0 >> ELSE << 1 >>,
-      peer |-> w.peer, res |-> w.res, end |-> IF ok THEN "done" ELSE w.end, short |-> FALSE]
+      peer |-> w.peer, res |-> w.res, end |-> IF ok THEN "done" ELSE w.end, short |-> FALSE,
+      rx |-> IF ok /\ TailOf(d) # << >> THEN CanonRx(TailOf(d)) ELSE << >>,
+      plook |-> IF Proxied(c) THEN 1 ELSE 0]
 
 -----------------------------------------------------------------------------
 Init ==
@@ -195,6 +205,33 @@ InvKeyFresh ==
      (i < j /\ hist[i].o.peer[a].t = "get" /\ hist[j].o.peer[b].t = "get") =>
         hist[i].o.peer[a].keyid # hist[j].o.peer[b].keyid
 
+InvRefusedNoLookup ==
+  AtEnd => \A i \in H :
+     (hist[i].d.user # "none" \/ hist[i].d.scheme \notin {"ws", "wss", "WS", "WSS", "Ws", "wSs"}) => hist[i].o.plook = 0
+(* the body handed over with ErrBadHandshake does not depend on segmentation or buffer size *)
+InvBodyExact ==
+  AtEnd => \A i \in H :
+     LET d == hist[i].d  o == hist[i].o IN
+     (o.end = "reply" /\ d.reply.mode = "std" /\ o.res.err = "badhs" /\ d.reply.status \notin 100..199 /\ d.reply.status \notin {204, 304}) =>
+        o.res.bodyn = (IF d.reply.blen < 1024 THEN d.reply.blen ELSE 1024)
+
+(* C17, client side: stated on the frames directly (independent of Messages) *)
+RECURSIVE SumLen(_, _)
+SumLen(q, i) == IF i > Len(q) THEN 0 ELSE q[i] + SumLen(q, i + 1)
+InvBoundaryNoLoss ==
+  AtEnd => \A i \in H :
+     LET d == hist[i].d  o == hist[i].o IN
+     (o.res.conn /\ d.reply.mode = "std" /\ d.reply.tail # << >>) =>
+        LET fs == d.reply.tail
+            data == SelectSeq(fs, LAMBDA f : f.op < 8)
+            heads == SelectSeq(fs, LAMBDA f : f.op \in {1, 2})
+            oks == SelectSeq(o.rx, LAMBDA x : x.ok)
+        IN /\ Len(oks) = Len(SelectSeq(data, LAMBDA f : f.fin))                       \* one delivery per complete message
+           /\ [j \in DOMAIN oks |-> oks[j].type] = [j \in DOMAIN heads |-> heads[j].op]  \* in order
+           /\ SumLen([j \in DOMAIN oks |-> oks[j].n], 1) = SumLen([j \in DOMAIN data |-> data[j].len], 1)  \* no byte lost
+           /\ \A j \in DOMAIN oks : oks[j].eq = << j >>
+           /\ ~o.rx[Len(o.rx)].ok
+
 (* C16 *)
 InvFailureCloses ==
   AtEnd => \A i \in H : LET o == hist[i].o IN
@@ -240,8 +277,12 @@ InvFirstHopHook ==
 Hdr(k, v) == [k |-> k, v |-> v]
 NoFault == [at |-> 0, kind |-> ""]
 OkCReply == [mode |-> "ok", status |-> 200]
+(* seg: offsets (relative to the end of the header block) at which the transport cuts the reply into separate    *)
+(* reads; tail: frames [op, fin, len] glued to the reply.                                                         *)
 StdReply(status, upg, con, acc, blen, cl, ext) ==
-  [mode |-> "std", status |-> status, upg |-> upg, con |-> con, acc |-> acc, blen |-> blen, cl |-> cl, ext |-> ext]
+  [mode |-> "std", status |-> status, upg |-> upg, con |-> con, acc |-> acc, blen |-> blen, cl |-> cl, ext |-> ext,
+   seg |-> << >>, tail |-> << >>]
+Fr(op, fin, len) == [op |-> op, fin |-> fin, len |-> len]
 GoodReply == StdReply(101, << << "websocket" >> >>, << << "Upgrade" >> >>, "ok", 0, FALSE, "none")
 URL(scheme, user, hform, host, bare, port, path, hasq, query, frag) ==
   [scheme |-> scheme, user |-> user, hform |-> hform, host |-> host, bare |-> bare, port |-> port,
@@ -250,5 +291,5 @@ PlainURL == URL("ws", "none", "name", "example.test", "example.test", "", "/ws",
 Dial(u, hdrs, reply, creply, cert, fault, hookerr) ==
   u @@ [hdrs |-> hdrs, reply |-> reply, creply |-> creply, cert |-> cert, fault |-> fault, hookerr |-> hookerr]
 BaseCfg == [proxy |-> "none", phost |-> "proxy.example.test", pport |-> "3128", puser |-> FALSE, ppass |-> FALSE,
-            nd |-> FALSE, ndc |-> TRUE, ndtc |-> TRUE, subs |-> << >>, comp |-> FALSE, tmo |-> "none", jar |-> FALSE]
+            nd |-> FALSE, ndc |-> TRUE, ndtc |-> TRUE, subs |-> << >>, comp |-> FALSE, tmo |-> "none", jar |-> FALSE, rbuf |-> 0]
 =============================================================================
